@@ -132,6 +132,11 @@ class ProjectResolver:
                     return t, ["via-star"] + trail
         return None, []
 
+    def star_names(self, rel):
+        """names a module gets only through its star imports"""
+        explicit = {n for (ln, n, extra) in self.top_bindings(rel) if n != "*"}
+        return sorted(self.names_of(rel) - explicit)
+
     def namespace(self, rel):
         return {n: self.lookup(rel, n)[0] for n in self.names_of(rel)}
 
@@ -204,10 +209,13 @@ class ProjectResolver:
             if owner_ps.kind == "func" and use_line is not None and use_line < min(x[0] for x in mine):
                 quals.append("used-before-import")
             others = [x for x in self.import_stmts(rel) if not (x[1] == name and x[2] is owner_ps)]
-            if any(x[3] == tgt and x[1] != name for x in others) and tgt[0] != "unresolvable":
+            star = [(0, n, orc.module, self.lookup(rel, n)[0], []) for n in self.star_names(rel)]
+            if any(x[3] == tgt and x[1] != name for x in others + star) and tgt[0] != "unresolvable":
                 quals.append("same-target-imported-under-another-name")
             if any(x[1] == name and x[2] is not owner_ps for x in others):
                 quals.append("same-local-name-imported-in-another-scope")
+            if owner_ps.kind != "module" and (orc.binding_forms(orc.module, name) - {"import"}):
+                quals.append("local-name-is-also-a-module-level-symbol")
             return tgt, quals
         if not forms and owner_ps.kind == "module":
             t, trail = self.lookup(rel, name)
@@ -232,6 +240,7 @@ class ProjectResolver:
 QUAL_PRIORITY = ["via-star", "dotted-import-as", "plain-import-of-module-in-another-directory", "from-dots-import",
                  "via-package-init", "reexported-under-alias", "used-before-import",
                  "same-target-imported-under-another-name", "same-local-name-imported-in-another-scope",
+                 "local-name-is-also-a-module-level-symbol",
                  "reexported", "relative-import"]
 
 
@@ -540,6 +549,30 @@ def fix_project(proj):
     Returns the number of dropped statements."""
     dropped = 0
     star_names = {}
+    init_bound = {}
+    for rel in proj["order"]:
+        if rel.endswith("/__init__.py"):
+            init_bound[dotted_of(rel)] = set(c05_py.bound_names(proj["files"][rel]))
+    pos = {rel: i for i, rel in enumerate(proj["order"])}
+
+    def through_later_init(rel, s):
+        """`from P import X` where P's __init__.py comes later in the order and itself binds X: what X denotes
+        would depend on the order in which the modules are first imported"""
+        if s["t"] != "from" or s["n"] == "*":
+            return False
+        m = s["m"]
+        level = len(m) - len(m.lstrip("."))
+        mod = m.lstrip(".")
+        if level:
+            pkg = package_of(rel).split(".") if package_of(rel) else []
+            if level - 1 > len(pkg):
+                return False
+            base = ".".join(pkg[:len(pkg) - (level - 1)] + ([mod] if mod else []))
+        else:
+            base = mod
+        init = base.replace(".", "/") + "/__init__.py"
+        return init in pos and pos[init] > pos[rel] and s["n"] in init_bound.get(base, ())
+
     for rel in proj["order"]:
         tree = proj["files"][rel]
         # exported names so far, for star imports from this module
@@ -573,6 +606,8 @@ def fix_project(proj):
                         clash = True
                 if s["t"] == "from" and s["n"] == "*" and sc["kind"] != "module":
                     clash = True
+                if through_later_init(rel, s):
+                    clash = True
                 if s["t"] == "read" and sc["kind"] == "module" and s["n"] not in bound:
                     clash = True
                 if clash:
@@ -598,3 +633,67 @@ def render_project(proj):
         w += sum(1 for o in occs if o.form == "w") + 1
         out[rel] = src
     return out
+
+
+def hoist_function_imports(proj):
+    """step-over for the open finding 'a name used before the import statement that binds it in the same function
+    is not resolved': move the import statements of every function body to its top.  Returns the number of
+    functions whose statement order changed."""
+    changed = 0
+    for rel in proj["order"]:
+        for sc in c05_py.Info(proj["files"][rel]).scopes:
+            if sc["kind"] != "func":
+                continue
+            imps = [s for s in sc["body"] if s["t"] in ("import", "from")]
+            rest = [s for s in sc["body"] if s["t"] not in ("import", "from")]
+            new = [s for s in sc["body"] if s["t"] in ("global", "nonlocal")] + imps + \
+                  [s for s in rest if s["t"] not in ("global", "nonlocal")]
+            if new != sc["body"]:
+                changed += 1
+                sc["body"] = new
+    return changed
+
+
+def labels(pr):
+    """-> (labels, nontrivial) for a resolved project"""
+    out = set()
+    nontrivial = False
+    bound_anywhere = {}
+    for rel, orc in pr.oracles.items():
+        for (ln, n, role, ps, extra) in orc.occs:
+            if role in ("def", "param"):
+                bound_anywhere.setdefault(n, set()).add((rel, ps.kind, ps.line))
+    for rel, orc in pr.oracles.items():
+        for (ln, n, role, ps, extra) in orc.occs:
+            if role == "star":
+                out.add("pymulti:import:from-star")
+            elif role == "def" and isinstance(extra, tuple):
+                if extra[0] == "import":
+                    out.add("pymulti:import:" + ("import-dotted-as" if "." in extra[1] else
+                                                 ("import-as" if extra[2] else "import")))
+                else:
+                    lvl = extra[3]
+                    out.add("pymulti:import:" + ("from-relative" if lvl else "from") +
+                            ("-as" if n != extra[2] else ""))
+                if ps.kind != "module":
+                    out.add("pymulti:import:inside-function")
+        for r in orc.resolved():
+            if r["role"] not in ("use", "usedef"):
+                continue
+            res = pr.import_bound(rel, r["owner"], r["name"], r["line"])
+            if res is None:
+                continue
+            tgt, quals = res
+            out.add("pymulti:use-of-imported:" + tgt[0])
+            for q in quals:
+                out.add("pymulti:qual:" + q)
+            if r["scope"].kind != "module":
+                out.add("pymulti:use-of-imported-name-inside-function")
+            if len(bound_anywhere.get(r["name"], ())) >= 2:
+                nontrivial = True
+    out.add("pymulti:files:%d" % len(pr.sources))
+    if any("/" in rel for rel in pr.sources):
+        out.add("pymulti:layout:package")
+    if any(rel.count("/") >= 2 for rel in pr.sources):
+        out.add("pymulti:layout:sub-package")
+    return out, nontrivial
